@@ -61,7 +61,16 @@ pub fn finish(mut w: impl Write) {
 
 /// Run `f`, turning a panic into Err(message). The default panic hook is silenced by the caller.
 pub fn catch<T>(f: impl FnOnce() -> T + std::panic::UnwindSafe) -> Result<T, String> {
-    match std::panic::catch_unwind(f) {
+    // under the watchdog too (the caller may have armed it with the input; otherwise without one)
+    let armed_here = WATCH.lock().map(|g| g.is_none()).unwrap_or(false);
+    if armed_here {
+        watch_case("(input not recorded by this family: see the reproduce command)");
+    }
+    let r = std::panic::catch_unwind(f);
+    if armed_here {
+        watch_idle();
+    }
+    match r {
         Ok(v) => Ok(v),
         Err(e) => {
             let msg = if let Some(s) = e.downcast_ref::<&str>() {
@@ -81,4 +90,39 @@ pub fn silence_panics() {
         return;
     }
     std::panic::set_hook(Box::new(|_| {}));
+}
+
+// ---------------------------------------------------------------- watchdog
+// A case on which the implementation does not return (endless loop, unbounded recursion turned into a loop
+// by the optimiser) would stall the whole check.  Every call into the analyser is bracketed by
+// `watch_case` / `watch_idle`; a background thread ends the process with exit status 97 and a line
+// "HANG\t<input>" on standard error once a single case has been running for more than the limit
+// (OQ3H_CASE_LIMIT seconds, default 30).  tools/check.py turns that line into a failing input.
+use std::sync::Mutex;
+static WATCH: Mutex<Option<(std::time::Instant, String)>> = Mutex::new(None);
+static WATCH_STARTED: std::sync::Once = std::sync::Once::new();
+
+pub fn watch_case(desc: &str) {
+    WATCH_STARTED.call_once(|| {
+        let limit: u64 = std::env::var("OQ3H_CASE_LIMIT").ok().and_then(|v| v.parse().ok()).unwrap_or(30);
+        std::thread::spawn(move || loop {
+            std::thread::sleep(std::time::Duration::from_millis(250));
+            let hung = match WATCH.lock() {
+                Ok(g) => g.as_ref().filter(|(t0, _)| t0.elapsed().as_secs() >= limit).map(|(_, d)| d.clone()),
+                Err(_) => None,
+            };
+            if let Some(d) = hung {
+                eprintln!("HANG\t{}\t{}", limit, d.replace('\n', "\\n").replace('\t', " "));
+                std::process::exit(97);
+            }
+        });
+    });
+    if let Ok(mut g) = WATCH.lock() {
+        *g = Some((std::time::Instant::now(), desc.to_string()));
+    }
+}
+pub fn watch_idle() {
+    if let Ok(mut g) = WATCH.lock() {
+        *g = None;
+    }
 }
